@@ -414,6 +414,70 @@ class AaCustomTemp(TemperatureProfile):
 '''
 
 
+EXT_MODULE = '''
+import numpy as np
+from taurex.mixin import TemperatureMixin
+from taurex.data.profiles.temperature import TemperatureProfile
+
+
+class Add50Mixin(TemperatureMixin):
+    def __init_mixin__(self, offset=50.0):
+        self._offset = offset
+
+    @property
+    def profile(self):
+        return super().profile + self._offset
+
+    @classmethod
+    def input_keywords(cls):
+        return ['add50', ]
+
+
+class ExtTemperature(TemperatureProfile):
+    def __init__(self, level=700.0, tag='ext'):
+        super().__init__('ExtTemperature')
+        self._level = level
+
+    @property
+    def profile(self):
+        return np.ones(self.nlayers) * self._level
+
+    @classmethod
+    def input_keywords(cls):
+        return ['exttemp', 'extension-temperature']
+'''
+
+
+def load_extension(ctx, tmp):
+    """[Global] extension_paths: classes and mixins from the user's directory join the registries"""
+    from taurex.parameter import ParameterParser
+    from taurex.parameter.classfactory import ClassFactory
+    ext = os.path.join(tmp, 'ext')
+    os.makedirs(ext, exist_ok=True)
+    open(os.path.join(ext, 'verif_ext.py'), 'w').write(EXT_MODULE)
+    par = os.path.join(tmp, 'ext.par')
+    open(par, 'w').write('[Global]\nextension_paths = %s\n' % ext)
+    text = open(par).read()
+    try:
+        with contextlib.redirect_stdout(io.StringIO()):
+            pp = ParameterParser()
+            pp.read(par)
+            pp.setup_globals()
+    except BaseException as e:      # noqa
+        import traceback
+        ctx.violation('extension-paths', 'an input file with [Global] extension_paths raised %r\n%s\n--- input file ---\n%s'
+                      % (e, traceback.format_exc()[-500:], text), replay=dict(file=text))
+        return False
+    names = {k.__name__ for k in ClassFactory().temperatureKlasses} | {k.__name__ for k in ClassFactory().temperatureMixinKlasses}
+    ctx.case(('extension', 'verif_ext'), nontrivial=True)
+    if not {'Add50Mixin', 'ExtTemperature'} <= names:
+        ctx.violation('extension-paths', 'classes of the extension directory are not in the registries: %r' % sorted(names),
+                      replay=dict(file=text))
+        return False
+    ctx.validated()
+    return True
+
+
 def write_files(d):
     os.makedirs(d, exist_ok=True)
     files = dict(dir=d)
@@ -493,6 +557,7 @@ def run(ctx):
     rng = ctx.rng
     tmp = os.path.join(C.CACHE, 'c15_%d' % os.getpid())
     files = write_files(tmp)
+    have_ext = load_extension(ctx, tmp)
     reg, mix, regtext = export_registry()
     header = HEADER0 + regtext
     byname = {s[0]: s for s in SECTIONS}
@@ -507,6 +572,11 @@ def run(ctx):
         component_cases(ctx, rng, reg, mix, header, files, rec, tmp, configobj)
     finally:
         rec.remove()
+        try:
+            from taurex.parameter.classfactory import ClassFactory
+            ClassFactory().set_extension_paths(paths=[])
+        except Exception:
+            pass
     cli_cases(ctx, rng, tmp)
     import shutil
     shutil.rmtree(tmp, ignore_errors=True)
@@ -705,9 +775,12 @@ def component_cases(ctx, rng, reg, mix, header, files, rec, tmp, configobj):
             info = rng.choice(cands)
             ent = gen_component(rng, info, field_of[sec], files, scenario)
             if scenario == 'mixin' and sec == 'Temperature':
-                ent[field_of[sec]] = rng.choice(['tempscalar+', 'TempScalar+', 'tempscalar+tempscalar+', 'nomixin+']) + ent[field_of[sec]]
+                ent[field_of[sec]] = rng.choice(['tempscalar+', 'TempScalar+', 'tempscalar+tempscalar+', 'nomixin+', 'add50+',
+                                                 'tempscalar+add50+', 'add50+tempscalar+', 'Add50+TempScalar+']) + ent[field_of[sec]]
                 if rng.random() < 0.7:
                     ent['scale_factor'] = '%g' % rng.uniform(0.5, 2)
+                if rng.random() < 0.5:
+                    ent['offset'] = '%g' % rng.uniform(10, 90)
             elif scenario == 'custom' and sec == 'Temperature':
                 ent = {'profile_type': rng.choice(['custom', 'Custom']), 'python_file': files['custom']}
                 if rng.random() < 0.6:
